@@ -1,7 +1,7 @@
 #!/venv/bin/python
 """Run the registered checks against every kept seeded change (scratch copy of /repo's package under
 /tmp, removed afterwards; /repo itself is never touched).  Prints a detection matrix and writes
-/verif/seeded/RESULTS.json.   usage: try_seeded.py [ids...] [--props C01,C02]"""
+/verif/seeded/RESULTS.json.   usage: try_seeded.py [ids...] [--props C01,C02] [--merge]"""
 import json
 import os
 import shutil
@@ -47,9 +47,13 @@ def main():
     argv = sys.argv[1:]
     props = available_props()
     ids = []
+    merge = False
     i = 0
     while i < len(argv):
-        if argv[i] == "--props":
+        if argv[i] == "--merge":
+            merge = True
+            i += 1
+        elif argv[i] == "--props":
             props = argv[i + 1].split(",")
             i += 2
         else:
@@ -73,8 +77,14 @@ def main():
             for p in fired[:2]:
                 for v in res[p]["violated"][:1]:
                     print("           %s" % v[:230])
+    rp = os.path.join(VERIF, "seeded", "RESULTS.json")
     if not ids:
-        json.dump(out, open(os.path.join(VERIF, "seeded", "RESULTS.json"), "w"), indent=1)
+        json.dump(out, open(rp, "w"), indent=1)
+    elif merge and props == available_props():
+        # a run over some changes with every check: replace just their rows
+        full = json.load(open(rp)) if os.path.exists(rp) else {}
+        full.update(out)
+        json.dump(dict(sorted(full.items())), open(rp, "w"), indent=1)
     n = sum(1 for r in out.values() if any(v.get("rc") == 1 for v in r.values() if isinstance(v, dict)))
     print("caught %d / %d" % (n, len(out)))
 
